@@ -5,5 +5,11 @@ From Coq Require Import ExtrOcamlBasic.
 From C06 Require Import Model.
 Extraction Language OCaml.
 Cd "ocaml".
-Extraction "model.ml" addZ add_wcZ add_wZ add_1Z subZ sub_wcZ cmpZ lmul_naiveZ lmul_karaZ lmulZ laddmulZ laddmul2Z mulZ addmulZ.
+Extraction "model.ml" addZ add_wcZ add_wZ add_1Z subZ sub_wcZ sub_wZ sub_1Z cmpZ
+  lmul_naiveZ lmul_karaZ lmulZ laddmulZ laddmul2Z mulZ addmulZ lmul_wZ lsquareZ squareZ
+  lnotZ negZ lorZ lxorZ landZ lor_wZ lxor_wZ land_wZ bitsZ limbZ
+  shlZ shrZ shl1Z shr1Z shl_extZ normZ
+  udivZ div32Z div21Z divZ div_wZ mod_nZ gcdZ inv_modZ bezout_modZ exp_modZ exp_mod_wZ arazi_qiZ
+  mpz_to_ruintZ mpz_to_rintZ rint_to_mpzZ
+  sdiv_qZ sdiv_rZ slmulZ slsquareZ scmpZ sextZ smod_nZ sinv_modZ.
 Cd "..".
